@@ -24,13 +24,15 @@
      at all (C08_keys_once_gen: any indexes, any options), and a top-level entry whose hash differs is
      always reported (C08_shallow_hash_change_reported).  Below a hashed entry shallow runs are
      deliberately inexact (children of a cut side are compared against "absent"); nothing is claimed there.
-   * C08_swap / C08_swap_renames are for shallow = False, arbitrary - also ill-formed - indexes.
+   * C08_swap_gen / C08_swap_renames_gen hold for any options and arbitrary - also ill-formed - indexes
+     (C08_swap / C08_swap_renames are their shallow = False instances, kept).
    * attrs equality compares the eq=True fields only, so "equal" below is [meta_eqb] / [hashinfo_eqb]
      (equality of those fields), not Leibniz equality of the records.
    * `with_unknown` and lazy loading through a storage map are outside the model; `roots` other than [()]
-     is in the model and the correspondence, but has no exactness theorem (C08_roots_default_partial). *)
+     is in the model: C08_roots_closed / _multi / _exact (shallow = False); overlapping roots report a
+     sub-tree once per covering root (C08_roots_multi, C08_roots_once_refuted). *)
 From Coq Require Import NArith List Bool Permutation.
-From DvcData Require Import Base.Val Base.PyBase Gen.PyTypes Gen.IDiff Model.Trie Model.IndexDiff Proofs.IndexDiffProofsBase Proofs.IndexDiffBfs Proofs.IndexDiffRefine Proofs.IndexDiffRenames Proofs.IndexDiffExamples Proofs.IndexDiffShallow Proofs.IndexDiffSwapRen Proofs.IndexDiffExamples2.
+From DvcData Require Import Base.Val Base.PyBase Gen.PyTypes Gen.IDiff Model.Trie Model.IndexDiff Proofs.IndexDiffProofsBase Proofs.IndexDiffBfs Proofs.IndexDiffRefine Proofs.IndexDiffRenames Proofs.IndexDiffExamples Proofs.IndexDiffShallow Proofs.IndexDiffSwapRen Proofs.IndexDiffRoots Proofs.IndexDiffSwapSh Proofs.IndexDiffExamples2.
 Import ListNotations.
 Open Scope N_scope.
 
@@ -241,11 +243,52 @@ Print Assumptions C08_swap_renames.
 
 (* ---- `roots` ------------------------------------------------------------------------------------------------------ *)
 (* `roots` is modelled ([diff_core_roots]: one queue item per root, `roots or [()]`) and tied to the code by
-   the correspondence `diff_roots` and the oracle `C08:roots-flat-mismatch` (prefix-free roots: the flat
-   reference at or below the roots).  Proved here only: the default is the core all theorems above are
-   about.  C08_roots_partial - the full statement, NOT proved: for prefix-free roots, well-formed
-   hash-consistent indexes, shallow = False,
-     diff_core_roots o old new rs fuel  ≡ₚ  flat_map cls (filter (fun k => existsb (fun r => is_prefix r k) rs) all_keys). *)
+   the correspondence `diff_roots` and the oracle `C08:roots-flat-mismatch`.  All statements: shallow = False. *)
+
+(* any indexes, any roots: the queue terminates within [fuel_for_roots] and the output is, root by root, what
+   visiting a duplicate-free list of keys (the root, and the children of every node reached from it) yields *)
+Theorem C08_roots_closed : forall o old new,
+  o_shallow o = false -> forall rs fuel, (fuel_for_roots old new rs <= fuel)%nat ->
+  (forall r, NoDup (rvisited o old new r)) /\
+  exists cs, diff_core_roots o old new rs fuel = Some cs /\
+             Permutation cs (flat_map (fun r => flat_map (yield o old new) (rvisited o old new r)) (eff_roots rs)).
+Proof. intros o old new Hs rs fuel Hf. split; [apply rvisited_NoDup | now apply roots_closed]. Qed.
+Print Assumptions C08_roots_closed.
+
+(* well-formed indexes, ANY roots (overlapping, repeated, absent): every root contributes exactly the flat
+   reference restricted to the keys at or below it - a sub-tree is reported once per covering root *)
+Theorem C08_roots_multi : forall o old new,
+  o_shallow o = false -> WfO old -> WfO new -> (shortcut_on o = true -> HashConsistent old new) ->
+  forall rs fuel, (fuel_for_roots old new rs <= fuel)%nat ->
+  exists cs, diff_core_roots o old new rs fuel = Some cs /\
+    Permutation cs (flat_map (fun r => flat_map (cls o old new) (filter (is_prefix r) (all_keys old new)))
+                             (eff_roots rs)).
+Proof. exact roots_multi. Qed.
+Print Assumptions C08_roots_multi.
+
+(* prefix-free roots ([antichain]: distinct, none a prefix of another; they need not exist on either side):
+   the flat reference restricted to the keys at or below a root, each key once *)
+Theorem C08_roots_exact : forall o old new,
+  o_shallow o = false -> WfO old -> WfO new -> (shortcut_on o = true -> HashConsistent old new) ->
+  forall rs fuel, antichain (eff_roots rs) -> (fuel_for_roots old new rs <= fuel)%nat ->
+  exists cs, diff_core_roots o old new rs fuel = Some cs /\
+    Permutation cs (flat_map (cls o old new) (filter (covered (eff_roots rs)) (all_keys old new))) /\
+    NoDup (map change_key cs).
+Proof. exact roots_exact. Qed.
+Print Assumptions C08_roots_exact.
+
+(* documentation theorem: with overlapping roots "each key once" fails (witness: roots [(); d] on the pair of
+   IndexDiffExamples.v, key d is reported twice); the real code does the same, the property's quantifier
+   does not range over `roots` *)
+Theorem C08_roots_once_refuted :
+  exists o old new rs cs k,
+    WfO old /\ WfO new /\ HashConsistent old new /\ o_shallow o = false /\
+    diff_core_roots o old new rs (fuel_for_roots old new rs) = Some cs /\
+    length (filter (fun c => key_eqb (change_key c) k) cs) = 2%nat /\ ~ NoDup (map change_key cs).
+Proof. exact roots_once_refuted. Qed.
+Print Assumptions C08_roots_once_refuted.
+
+(* the default roots are the core all theorems above are about *)
 Theorem C08_roots_default_partial : forall o old new fuel,
   diff_core_roots o old new [] fuel = diff_core o old new fuel /\
   diff_core_roots o old new [[]] fuel = diff_core o old new fuel /\
@@ -274,4 +317,20 @@ Theorem C08_history_final_only : forall o h1 h2 h1' h2' fuel,
 Proof. exact diff_final_map_only. Qed.
 Print Assumptions C08_history_final_only.
 
-(* NOT PROVED: exactness for `roots` other than [()] (see above); swap for shallow = True. *)
+(* ---- swap for any options (shallow = True included) ------------------------------------------------------------------ *)
+Theorem C08_swap_gen : forall o old new fuel,
+  (fuel_for old new <= fuel)%nat ->
+  exists cs cs', diff_core o old new fuel = Some cs /\ diff_core o new old fuel = Some cs' /\
+                 Permutation cs' (map swap_change cs).
+Proof. exact diff_core_swap_gen. Qed.
+Print Assumptions C08_swap_gen.
+
+Theorem C08_swap_renames_gen : forall o old new fuel,
+  (fuel_for old new <= fuel)%nat -> (renames_on o old new = true -> o_meta_only o = false) ->
+  exists l l', diff o old new fuel = DOk l /\ diff o new old fuel = DOk l' /\
+               Permutation l' (map swap_change l).
+Proof. exact diff_swap_gen. Qed.
+Print Assumptions C08_swap_renames_gen.
+
+(* NOT PROVED: `roots` together with shallow = True; rename detection on top of `roots` is modelled
+   ([diff_roots]) and tied by the correspondence, the C08_rename_... theorems are about any change list. *)
